@@ -322,4 +322,186 @@ theorem inv_newState (cfg : Cfg) (P : Prog) {tk : Option Req} {σ : SM} (ns : Op
   · exact Or.inl ⟨e2.nextTask.trans t1, e2.lastPost.trans t2, e2.posted.trans t3⟩
   · exact Or.inr ⟨by rw [e2.nextTask]; exact t1, by rw [e2.posted]; exact t2⟩
 
+/-! ### user functions and `_cleanup` -/
+
+/-- what a call of a user function (after its `call`/`cleanup` event) leaves alone -/
+structure AO (idle : Status) (σ σ' : SM) : Prop where
+  statefunc : σ'.statefunc = σ.statefunc
+  reason : σ'.reason = σ.reason
+  init : σ'.init = σ.init
+  attrs : σ'.attrs = σ.attrs
+  fresh : (ob idle σ').fresh = (ob idle σ).fresh
+  calls : (ob idle σ').callsInCycle = (ob idle σ).callsInCycle
+  task : (σ'.nextTask = σ.nextTask ∧ (ob idle σ').lastPost = (ob idle σ).lastPost ∧
+          (ob idle σ').postedInCycle = (ob idle σ).postedInCycle) ∨
+         (σ'.nextTask.isSome = true ∧ (ob idle σ').postedInCycle = true)
+
+theorem inv_applyOutcome (cfg : Cfg) {σ : SM} (o : Outcome) (b : Bool) (h : Inv idle ml none false none σ)
+    (hb : (ob idle σ).inState = b) :
+    Inv idle ml none (b && isErrorRet o.ret) none (applyOutcome cfg σ o) ∧ AO idle σ (applyOutcome cfg σ o) := by
+  obtain ⟨h1, s1⟩ := inv_requests cfg o.posts h
+  have hb1 : (ob idle (requests cfg σ o.posts)).inState = b := by rw [s1.inState]; exact hb
+  unfold applyOutcome
+  generalize requests cfg σ o.posts = τ at h1 s1 hb1 ⊢
+  have hg := h1.good
+  have hmc := h1.mustCleanup; have hmi := h1.mustInterrupt
+  simp only [ob] at hmc hmi hb1
+  cases hf : o.fin with
+  | none =>
+    simp only [applyFin]
+    refine ⟨⟨?_, ?_, ?_, ?_, ?_, ?_, ?_, ?_, ?_, ?_, ?_⟩, ⟨s1.statefunc, s1.reason, s1.init, s1.attrs, ?_, ?_, ?_⟩⟩ <;>
+      simp only [SM.log, ob, observe_snoc, Obs.step, always_snoc]
+    · refine ⟨hg, ?_⟩
+      simp [okAll, okInit, okCleanupOnce, okCleanupNotInterrupted, okStopInactive, okLastStart, okPickedUp, okBound,
+        okNoRaise, hmc, hmi]
+    · exact h1.cur
+    · exact h1.runCleanup
+    · exact h1.interrupted
+    · exact h1.pending
+    · exact h1.attrs
+    · exact h1.mustCleanup
+    · rw [hb1]
+    · exact h1.taken
+    · exact h1.j0
+    · exact h1.j1
+    · exact s1.fresh
+    · exact s1.calls
+    · exact s1.task
+  | some st =>
+    simp only [applyFin]
+    refine ⟨⟨?_, ?_, ?_, ?_, ?_, ?_, ?_, ?_, ?_, ?_, ?_⟩, ⟨s1.statefunc, s1.reason, s1.init, s1.attrs, ?_, ?_, ?_⟩⟩ <;>
+      simp only [SM.log, ob, observe_snoc, Obs.step, always_snoc]
+    · refine ⟨hg, ?_⟩
+      simp [okAll, okInit, okCleanupOnce, okCleanupNotInterrupted, okStopInactive, okLastStart, okPickedUp, okBound,
+        okNoRaise, hmc, hmi]
+    · exact h1.cur
+    · exact h1.interrupted
+    · exact h1.pending
+    · exact h1.attrs
+    · exact h1.mustCleanup
+    · rw [hb1]
+    · exact h1.taken
+    · exact h1.j0
+    · exact h1.j1
+    · exact s1.fresh
+    · exact s1.calls
+    · exact s1.task
+
+/-- what `_cleanup` leaves alone / establishes -/
+structure DC (idle : Status) (σ σ' : SM) : Prop where
+  statefunc : σ'.statefunc = σ.statefunc
+  reason : σ'.reason.isSome = true
+  init : σ'.init = σ.init
+  attrs : σ'.attrs = σ.attrs
+  fresh : (ob idle σ').fresh = (ob idle σ).fresh
+  calls : (ob idle σ').callsInCycle = (ob idle σ).callsInCycle
+  task : (σ'.nextTask = σ.nextTask ∧ (ob idle σ').lastPost = (ob idle σ).lastPost ∧
+          (ob idle σ').postedInCycle = (ob idle σ).postedInCycle) ∨
+         (σ'.nextTask.isSome = true ∧ (ob idle σ').postedInCycle = true)
+
+/-- the interruption itself: log line and `cleanup_reason` -/
+theorem inv_interrupt {σ : SM} (k : IKind) (mi : Bool) (h : Inv idle ml none mi none σ)
+    (hmi : mi = true → k = .error) (hsf : σ.statefunc.isSome = true) (hre : σ.reason.isSome = true → k = .error) :
+    Inv idle ml σ.cleanup false none (setReason (σ.log (.interrupt k)) k) ∧
+    (ob idle (setReason (σ.log (.interrupt k)) k)).lastInterrupt = true ∧
+    DC idle σ (setReason (σ.log (.interrupt k)) k) ∧
+    (setReason (σ.log (.interrupt k)) k).cleanup = σ.cleanup := by
+  have hg := h.good
+  have hmc := h.mustCleanup; have hmi' := h.mustInterrupt; have hint := h.interrupted
+  simp only [ob] at hmc hmi' hint
+  have hok : okAll ml (observe idle σ.trace) (.interrupt k) = true := by
+    simp only [okAll, okInit, okCleanupOnce, okCleanupNotInterrupted, okStopInactive, okLastStart, okPickedUp, okBound,
+      okNoRaise, hmc, hmi', hint, hsf]
+    cases mi with
+    | false =>
+      cases hr : σ.reason with
+      | none => simp
+      | some r => simp [hre (by simp [hr])]
+    | true => simp [hmi rfl]
+  cases hr : σ.reason with
+  | none =>
+    have e : setReason (σ.log (.interrupt k)) k = { σ with reason := some k, trace := σ.trace ++ [.interrupt k] } := by
+      simp [setReason, SM.log, hr]
+    rw [e]
+    refine ⟨⟨?_, ?_, ?_, ?_, ?_, ?_, ?_, ?_, ?_, ?_, ?_⟩, ?_, ⟨rfl, rfl, rfl, rfl, ?_, ?_, ?_⟩, rfl⟩ <;>
+      simp only [ob, observe_snoc, Obs.step, always_snoc]
+    · exact ⟨hg, hok⟩
+    · exact h.cur
+    · exact h.runCleanup
+    · simp [hsf]
+    · exact h.pending
+    · exact h.attrs
+    · exact h.runCleanup
+    · exact h.taken
+    · exact h.j0
+    · exact h.j1
+    · simp
+  | some r =>
+    have e : setReason (σ.log (.interrupt k)) k = { σ with trace := σ.trace ++ [.interrupt k] } := by
+      simp [setReason, SM.log, hr]
+    rw [e]
+    refine ⟨⟨?_, ?_, ?_, ?_, ?_, ?_, ?_, ?_, ?_, ?_, ?_⟩, ?_, ⟨rfl, ?_, rfl, rfl, ?_, ?_, ?_⟩, rfl⟩ <;>
+      simp only [ob, observe_snoc, Obs.step, always_snoc]
+    · exact ⟨hg, hok⟩
+    · exact h.cur
+    · exact h.runCleanup
+    · simp [hsf, hr]
+    · exact h.pending
+    · exact h.attrs
+    · exact h.runCleanup
+    · exact h.taken
+    · exact h.j0
+    · exact h.j1
+    · simp [hr]
+    · simp
+
+theorem DC.of_ao {a b c : SM} (h1 : DC idle a b) (hcl : AO idle b c) : DC idle a c := by
+  refine ⟨hcl.statefunc.trans h1.statefunc, by rw [hcl.reason]; exact h1.reason, hcl.init.trans h1.init,
+    hcl.attrs.trans h1.attrs, hcl.fresh.trans h1.fresh, hcl.calls.trans h1.calls, ?_⟩
+  rcases hcl.task with ⟨t1, t2, t3⟩ | t
+  · rcases h1.task with ⟨u1, u2, u3⟩ | ⟨u1, u2⟩
+    · exact Or.inl ⟨t1.trans u1, t2.trans u2, t3.trans u3⟩
+    · exact Or.inr ⟨by rw [t1]; exact u1, by rw [t3]; exact u2⟩
+  · exact Or.inr t
+
+theorem inv_doCleanup (cfg : Cfg) (P : Prog) {σ : SM} (k : IKind) (mi : Bool) (h : Inv idle ml none mi none σ)
+    (hmi : mi = true → k = .error) (hsf : σ.statefunc.isSome = true) (hre : σ.reason.isSome = true → k = .error) :
+    Inv idle ml none false none (doCleanup cfg P σ k).σ ∧ DC idle σ (doCleanup cfg P σ k).σ := by
+  obtain ⟨h1, hl, d1, hc⟩ := inv_interrupt k mi h hmi hsf hre
+  unfold doCleanup
+  generalize setReason (σ.log (.interrupt k)) k = τ at h1 hl d1 hc ⊢
+  simp only
+  cases hcl : τ.cleanup with
+  | none =>
+    simp only
+    rw [← hc, hcl] at h1
+    exact ⟨h1, d1⟩
+  | some c =>
+    simp only
+    rw [← hc, hcl] at h1
+    have hg := h1.good
+    have hmc := h1.mustCleanup; have hmi' := h1.mustInterrupt; have hrc := h1.runCleanup
+    simp only [ob] at hmc hmi' hl hrc
+    have h2 : Inv idle ml none false none ({ τ with cleanup := none }.log (.cleanup c)) ∧
+        AO idle τ ({ τ with cleanup := none }.log (.cleanup c)) ∧
+        (ob idle ({ τ with cleanup := none }.log (.cleanup c))).inState = false := by
+      refine ⟨⟨?_, ?_, ?_, ?_, ?_, ?_, ?_, ?_, ?_, ?_, ?_⟩, ⟨rfl, rfl, rfl, rfl, ?_, ?_, ?_⟩, ?_⟩ <;>
+        simp only [SM.log, ob, observe_snoc, Obs.step, always_snoc]
+      · refine ⟨hg, ?_⟩
+        simp [okAll, okInit, okCleanupOnce, okCleanupNotInterrupted, okStopInactive, okLastStart, okPickedUp, okBound,
+          okNoRaise, hmc, hmi', hl, hrc, hcl]
+      · exact h1.cur
+      · exact h1.interrupted
+      · exact h1.pending
+      · exact h1.attrs
+      · exact h1.mustInterrupt
+      · exact h1.taken
+      · exact h1.j0
+      · exact h1.j1
+      · simp
+    obtain ⟨h2, a2, hb⟩ := h2
+    obtain ⟨h3, a3⟩ := inv_applyOutcome cfg (P.clean ({ τ with cleanup := none }.log (.cleanup c)).trace c) false h2 hb
+    simp only [Bool.false_and] at h3
+    refine ⟨h3, (d1.of_ao a2).of_ao a3⟩
+
 end Frappy.SM
